@@ -118,6 +118,14 @@ class PipeSim(Sim):
                     self.viol("C15", "stage-before-previous-complete", f"stage {k} is being submitted while stage {k - 1} is not complete on disk (is_complete={done})")
                 if not self.stage_complete_seen.get(k - 1):
                     self.viol("C15", "stage-before-previous-complete", f"stage {k} is being submitted before any lock-free observation of stage {k - 1} showed it complete")
+                # what "complete" means for the stages of a pipeline: in a fault-free run every job of the previous stage has its
+                # outcome on disk and none of them is still running when the next stage is configured
+                if self.ff and not self.faults_injected and not self.killed_nodes_n() and self.stage == k - 1:
+                    rows = self._rows_on_disk()
+                    noout = sorted(n for n in self.jobs if n not in rows)
+                    running = sorted(j for (j, _n) in self.running_jobs.values() if j in self.jobs)
+                    if (noout or running) and not self.rows_unknown:
+                        self.viol("C15", "stage-before-previous-outcomes", f"stage {k} is being submitted while jobs {noout} of stage {k - 1} have no outcome (still running: {running}) in a fault-free run")
             for kk in range(1, k):
                 if kk not in self.stage_submit_count:
                     self.viol("C15", "stage-skipped", f"stage {k} submitted but stage {kk} never was")
@@ -125,6 +133,17 @@ class PipeSim(Sim):
             if k != self.stage:
                 self.switch_stage(k)
         Sim.on_io(self, a, msg)
+
+    def killed_nodes_n(self):
+        return sum(1 for b in self.batches.values() if b.get("killed"))
+
+    def finish_job(self, a):
+        job = a.msg["env"].get("JADE_JOB_NAME")
+        if job not in self.jobs and job in self.all_jobs:
+            # a job of an earlier stage that was still running when the pipeline moved on (already reported at the stage switch)
+            self.log("FINISH_OF_EARLIER_STAGE", job)
+            return self.reply(a, rc=self.all_jobs[job]["rc"], out=f"OUT-{job}\n", err=f"ERR-{job}\n")
+        return Sim.finish_job(self, a)
 
     def on_complete_visible(self, o):
         self.stage_complete_seen[self.stage] = True
